@@ -611,6 +611,8 @@ def work(tier, seed, only, known, scratch, st, t_start):
             st["standins"].append(dict(spec=s["id"], reason="fault sets with RMFault /= {} are outside the inductive proof (%s): the property is FALSE there, see known findings" % wit["obligation"],
                                        tlc=[summ(r) for r in st["tlc_runs"] if r["spec"] == s["id"] and r.get("RMFault") != "{}"]))
 
+    st["specs"] = [dict(spec=s["id"], file=os.path.join(REPO_MODELS, s["src"]), sha256=s.get("sha"),
+                        same_as_pristine_tree=(not s.get("edited")) if s.get("sha") else None) for s in specs]
     return finish(tier, seed, st, results, t_start, known)
 
 
@@ -688,6 +690,7 @@ def finish(tier, seed, st, results, t_start, known):
                 "c20_driver.py (job scheduling, parsing of tool verdicts)",
             ],
             "samples": st["samples"],
+            "specs_checked": st.get("specs", []),
             "specs_with_inductive_invariant": proved_specs,
             "bounded_standins": st["standins"],
             "tlc_runs": [{k: v for k, v in r.items() if k not in ("log",)} for r in st["tlc_runs"]],
